@@ -140,81 +140,81 @@ pub fn vpool() -> BoxedStrategy<Vec<MVersion>> {
         let cap = max_int() - 2;
         prop_oneof![9 => (0u64..3).boxed(), 1 => crate::gen::version::field().prop_map(move |x| x.min(cap)).boxed()]
     };
-    (comp(), comp(), comp(), 0u64..4, proptest::collection::vec((0usize..5, 0usize..5), 3..=8))
-        .prop_map(|(a, b, c, d, picks)| {
-            let tuples = [(a, b, c), (a, b, c + 1), (a, b + 1, 0), (a + 1, 0, 0), (a + 1 + d, d, 0)];
-            let tg = tags();
-            let mut out: Vec<MVersion> = picks.iter().map(|(ti, gi)| MVersion::new(tuples[*ti].0, tuples[*ti].1, tuples[*ti].2).with_pre(tg[*gi].clone())).collect();
-            out.sort_by(cmp_semver);
-            out.dedup();
-            // now and then a pool version carries build metadata (it must never matter)
-            for (k, v) in out.iter_mut().enumerate() {
-                if (d as usize + k) % 7 == 0 {
-                    v.build = if k % 2 == 0 { vec![MId::Str("b".into())] } else { vec![MId::Num(7), MId::Str("x".into())] };
-                }
-            }
-            out
-        })
-        .boxed()
+    (comp(), comp(), comp(), 0u64..4, proptest::collection::vec((0usize..5, 0usize..5), 3..=8)).prop_map(|(a, b, c, d, picks)| vpool_of(a, b, c, d, &picks)).boxed()
 }
 
-/// one interval as text, endpoints from the pool (sorted so the interval is never inverted)
+pub fn vpool_of(a: u64, b: u64, c: u64, d: u64, picks: &[(usize, usize)]) -> Vec<MVersion> {
+    let tuples = [(a, b, c), (a, b, c + 1), (a, b + 1, 0), (a + 1, 0, 0), (a + 1 + d, d, 0)];
+    let tg = tags();
+    let mut out: Vec<MVersion> = picks.iter().map(|(ti, gi)| MVersion::new(tuples[*ti].0, tuples[*ti].1, tuples[*ti].2).with_pre(tg[*gi].clone())).collect();
+    out.sort_by(cmp_semver);
+    out.dedup();
+    // now and then a pool version carries build metadata (it must never matter)
+    for (k, v) in out.iter_mut().enumerate() {
+        if (d as usize + k) % 7 == 0 {
+            v.build = if k % 2 == 0 { vec![MId::Str("b".into())] } else { vec![MId::Num(7), MId::Str("x".into())] };
+        }
+    }
+    out
+}
+
+/// one interval as text, endpoints `pool[i]`, `pool[j]` (sorted so the interval is never inverted)
+pub fn interval_text_of(pool: &[MVersion], i: usize, j: usize, shape: u8, li: bool, hi: bool) -> String {
+    let (i, j) = if i <= j { (i, j) } else { (j, i) };
+    let (lo, up) = (pool[i].text(), pool[j].text());
+    let l = if li { ">=" } else { ">" };
+    let u = if hi { "<=" } else { "<" };
+    match shape {
+        0 => "*".to_string(),
+        1 => format!("{}{}", l, lo),
+        2 => format!("{}{}", u, up),
+        3 => lo,
+        4 => format!("={}", up),
+        _ => {
+            if i == j {
+                // a single point: only the closed form is a valid interval; the three empty
+                // spellings (`>v <=v`, `>=v <v`, `>v <v`) must not parse (the case is then discarded)
+                if shape == 11 {
+                    format!("{}{} {}{}", if li { ">=" } else { ">" }, lo, if hi && !li { "<=" } else { "<" }, up)
+                } else if li && hi {
+                    format!(">={} <={}", lo, up)
+                } else {
+                    format!("{}{}", l, lo)
+                }
+            } else {
+                format!("{}{} {}{}", l, lo, u, up)
+            }
+        }
+    }
+}
+
 pub fn interval_text(pool: Vec<MVersion>) -> BoxedStrategy<String> {
     let n = pool.len();
-    (0usize..n, 0usize..n, 0u8..12, any::<bool>(), any::<bool>())
-        .prop_map(move |(i, j, shape, li, hi)| {
-            let (i, j) = if i <= j { (i, j) } else { (j, i) };
-            let (lo, up) = (pool[i].text(), pool[j].text());
-            let l = if li { ">=" } else { ">" };
-            let u = if hi { "<=" } else { "<" };
-            match shape {
-                0 => "*".to_string(),
-                1 => format!("{}{}", l, lo),
-                2 => format!("{}{}", u, up),
-                3 => lo,
-                4 => format!("={}", up),
-                _ => {
-                    if i == j {
-                        // a single point: only the closed form is a valid interval; the three empty
-                        // spellings (`>v <=v`, `>=v <v`, `>v <v`) must not parse (the case is then discarded)
-                        if shape == 11 {
-                            format!("{}{} {}{}", if li { ">=" } else { ">" }, lo, if hi && !li { "<=" } else { "<" }, up)
-                        } else if li && hi {
-                            format!(">={} <={}", lo, up)
-                        } else {
-                            format!("{}{}", l, lo)
-                        }
-                    } else {
-                        format!("{}{} {}{}", l, lo, u, up)
-                    }
-                }
-            }
-        })
-        .boxed()
+    (0usize..n, 0usize..n, 0u8..12, any::<bool>(), any::<bool>()).prop_map(move |(i, j, shape, li, hi)| interval_text_of(&pool, i, j, shape, li, hi)).boxed()
 }
 
 /// sugar forms: caret / tilde / x-ranges / hyphen / partial uppers (`<=1`, `<=1.2`, `<1`, `>1.2`)
+pub fn sugar_text_of(pool: &[MVersion], i: usize, j: usize, k: u8) -> String {
+    let (a, b) = (&pool[i.min(j)], &pool[i.max(j)]);
+    match k {
+        0 => format!("^{}", a.text()),
+        1 => format!("~{}", a.text()),
+        2 => format!("{}.x", a.major),
+        3 => format!("{}.{}.x", a.major, a.minor),
+        4 => format!("{} - {}", a.text(), b.text()),
+        5 => format!("{} - {}.{}", a.text(), b.major, b.minor),
+        6 => format!("<={}", b.major),
+        7 => format!("<={}.{}", b.major, b.minor),
+        8 => format!("<{}", b.major + 1),
+        9 => format!(">{}.{}", a.major, a.minor),
+        10 => format!("^{}.{}", a.major, a.minor),
+        _ => format!("~{}", a.major),
+    }
+}
+
 pub fn sugar_text(pool: Vec<MVersion>) -> BoxedStrategy<String> {
     let n = pool.len();
-    (0usize..n, 0usize..n, 0u8..12)
-        .prop_map(move |(i, j, k)| {
-            let (a, b) = (&pool[i.min(j)], &pool[i.max(j)]);
-            match k {
-                0 => format!("^{}", a.text()),
-                1 => format!("~{}", a.text()),
-                2 => format!("{}.x", a.major),
-                3 => format!("{}.{}.x", a.major, a.minor),
-                4 => format!("{} - {}", a.text(), b.text()),
-                5 => format!("{} - {}.{}", a.text(), b.major, b.minor),
-                6 => format!("<={}", b.major),
-                7 => format!("<={}.{}", b.major, b.minor),
-                8 => format!("<{}", b.major + 1),
-                9 => format!(">{}.{}", a.major, a.minor),
-                10 => format!("^{}.{}", a.major, a.minor),
-                _ => format!("~{}", a.major),
-            }
-        })
-        .boxed()
+    (0usize..n, 0usize..n, 0u8..12).prop_map(move |(i, j, k)| sugar_text_of(&pool, i, j, k)).boxed()
 }
 
 pub fn alt_text(pool: Vec<MVersion>) -> BoxedStrategy<String> {
